@@ -238,7 +238,7 @@ func c15GenFaults(r *Rng, rev *c15Rev) c15Faults {
 func c15Gen(r *Rng) c15Scn {
 	scn := c15Scn{Kind: "rev", Feature: r.Chance(1, 4)}
 	n := 1
-	if r.Chance(1, 4) {
+	if r.Chance(1, 3) {
 		n = 2
 	}
 	for i := 0; i < n; i++ {
@@ -267,6 +267,14 @@ func c15Gen(r *Rng) c15Scn {
 		}
 		scn.Steps = append(scn.Steps, s)
 	}
+	// two reconciles of different revisions sharing the cache, run concurrently
+	for i := 0; i+1 < len(scn.Steps); i++ {
+		a, b := &scn.Steps[i], &scn.Steps[i+1]
+		if a.K == "rec" && b.K == "rec" && a.R != b.R && r.Bool() {
+			a.Par = true
+			i++
+		}
+	}
 	return scn
 }
 
@@ -280,6 +288,9 @@ func c15Cls(scn *c15Scn, obs *c15Obs) string {
 		if s.K == "sig" {
 			fk["sig:"+s.SigCfg] = true
 			continue
+		}
+		if s.Par {
+			fk["concurrent"] = true
 		}
 		if s.F.Init {
 			fk["init"] = true
@@ -700,6 +711,8 @@ func c15Witnesses() []c15Scn {
 	bad = append(bad, docs[3:]...)
 	out = append(out, c15Scn{Kind: "rev", Revs: []c15Rev{{PType: "provider", Name: "pkga-provider-baddoc", Source: "xpkg.example.org/acme/pkga:v1.0.1", Docs: bad, Img: "annotated", Pre: "cold"}},
 		Steps: []c15Step{{K: "rec", Active: true, F: c15Faults{Read: -1}}, {K: "rec", Active: true, F: c15Faults{Read: -1}}}})
+	// (The D18 witness in corpus/C15/d18-witness.jsonl was found by the generator: it needs a stream
+	// slightly longer than one 4096-byte read whose truncation is still valid YAML.)
 	// D7: a Function package that carries a Composition.
 	out = append(out, c15Scn{Kind: "rev", Revs: []c15Rev{{PType: "function", Name: "pkga-function-d7d7d7", Source: "xpkg.example.org/acme/fn:v1.0.0",
 		Docs: []c15Doc{{T: "meta", GVK: "meta.pkg.crossplane.io/v1/Function", Name: "pkg-function", Con: "none"}, {T: "obj", GVK: crd, Name: c15ObjName(crd, 0)}, {T: "obj", GVK: "apiextensions.crossplane.io/v1/Composition", Name: "compositions1.example.org"}},
